@@ -70,6 +70,26 @@ add("C16","exploration",
     "Runtime monitoring of serialization: equality after to_string/from_str for hostile mode lists and for Span/Match/Position/MatchExt values, README layout written by an independent writer accepted and equal, behavioural twin (token streams and compiled automata of scanners built from x and from its round trip).",
     "serde_json is trusted as JSON implementation; the independent README-layout writer of the harness.",
     "round-trip equality + behavioural twin monitor", "DESIGN.md 6/C16")
+add("C08","exploration",
+    "Runtime monitoring of character classes with exhaustive inputs per expression: a scanner built from the single pattern is run over the string of all 1,112,064 scalar values and the matched set is compared bit for bit with the set algebra of the class's items; generated classes to nesting depth 3, single literals, the fixed ASCII statements, complements, corpus classes.",
+    "Named items are calibrated (their set is whatever the scanner built from that item alone accepts); the reference set algebra of the harness; expressions are sampled, characters are exhaustive.",
+    "reference-model monitor, exhaustive over scalar values per generated class expression", "DESIGN.md 6/C08")
+add("C13","exploration",
+    "Runtime monitoring of the cache: build sequences over families of near-identical and failing configurations in single-threaded worker processes; every build() result is compared with build_uncached() (Ok/Err, mode, names, token streams, compiled automata incl. language equivalence); hook H3 shows the hits and misses actually taken.",
+    "build_uncached() is the reference; its compilation is judged by C01-C05; process-global cache state is isolated per worker process.",
+    "uncached-twin oracle over build histories + cache event log", "DESIGN.md 6/C13")
+add("C14","exploration",
+    "Runtime monitoring under concurrency: barrier-started rounds of 2-16 threads doing cached/private/failing builds and scans on a shared Scanner with injected yields and sleeps, every result compared with a sequentially computed table; lock-order interleavings counted from the cache event log; logical deadlock watchdog; compile-time Send+Sync probe; thorough adds ThreadSanitizer and Miri (many seeds) runs.",
+    "Schedules are sampled by stress, TSan and Miri seeds, not enumerated; Send+Sync is a build-time probe (the statement's own observation point).",
+    "stress workload with sequential-oracle comparison, race detector (TSan), UB/race interpreter (Miri), compile-time probe", "DESIGN.md 6/C14")
+add("C17","exploration",
+    "Runtime monitoring at the 2^16 boundary: a mode of 8300 distinct keywords (66401 states, more than 2^16 partition groups) is really built (about 2 minutes) and every keyword, near-keyword and concatenation probe is compared with the trivially computable longest-match result; the minimizer's (before, after) pair is checked for equivalence; thorough adds three more crossing shapes and a{66000}b.",
+    "A handful of configurations at and beyond the boundary (fixed price of a quadratic builder); the hook reports the state counts actually reached.",
+    "reference-model monitor on real large builds + minimizer pair checker", "DESIGN.md 6/C17")
+add("C18","exploration",
+    "Runtime monitoring of the DOT export: every file written for generated configurations is parsed by a strict DOT parser and compared with the hook's dump of the same scanner (files, nodes, accepting labels, edge multiset with class ids, lookahead clusters); fault injection for unwritable targets (missing, regular file, over-long name, non-UTF-8 names, /sys, chmod 0555 as uid 65534) must give Err, never a panic.",
+    "Hook H1 is the reference for the compiled automaton (validated against the patterns by C02); the harness's DOT parser implements Graphviz's quoted-string lexing.",
+    "structural comparison of written artefacts with hooked state + fault injection", "DESIGN.md 6/C18")
 manifest = {
  "version": 1,
  "setup_cmd": "./check setup",
